@@ -133,4 +133,28 @@ theorem crc_detects_burst (m e : List Octet) (hlen : m.length = e.length) (h : B
   intro h0
   exact crc_burst_ne_zero e h (xor_eq_self _ _ h0)
 
+/-- an error pattern whose remainder is non-zero, also when zero octets follow it: what the
+    frame-level theorems need of a pattern (bursts and two-bit errors both are) -/
+def Detectable (e : List Octet) : Prop := ∀ n : Nat, crc 0#16 (e ++ List.replicate n 0#8) ≠ 0#16
+
+theorem detectable_append_zeros (e : List Octet) (h : Detectable e) (k : Nat) : Detectable (e ++ List.replicate k 0#8) := by
+  intro n
+  rw [List.append_assoc, List.replicate_append_replicate]
+  exact h (k + n)
+
+theorem detectable_ne_nil (e : List Octet) (h : Detectable e) : e ≠ [] := by
+  intro h0
+  subst h0
+  exact h 0 (by simp [crc])
+
+theorem crc_detects (m e : List Octet) (hlen : m.length = e.length) (h : Detectable e) (init : BitVec 16) :
+    crc init (xorL m e) ≠ crc init m := by
+  have hx := crc_xor m e init 0#16 hlen
+  simp only [BitVec.xor_zero] at hx
+  rw [hx]
+  intro h0
+  have := h 0
+  simp only [List.replicate_zero, List.append_nil] at this
+  exact this (xor_eq_self _ _ h0)
+
 end Ufw.Lemmas.CrcAlgebra
